@@ -40,6 +40,7 @@ Inductive rstmt :=
 | RStatic (x : string) (init : value)
 | RTry (b : rstmt) (cs : rcatches) (f : rstmt)
 | RThrowSt (e : expr)
+| RIfInst (x : string) (T : string) (t e : rstmt)
 with relifs := REINil | REICons (c : expr) (b : rstmt) (r : relifs)
 with rclauses := RCLNil | RCLCase (e : expr) (b : rstmt) (r : rclauses) | RCLDefault (b : rstmt) (r : rclauses)
 with rcatches := RCTNil | RCTCons (ty : string) (x : option string) (b : rstmt) (r : rcatches).
@@ -68,6 +69,7 @@ Fixpoint resolve (stk : list lid) (path : lid) (s : stmt) {struct s} : rstmt :=
   | SStatic x i => RStatic x i
   | STry b cs f => RTry (resolve stk (0 :: path) b) (resolve_catches stk path 2 cs) (resolve stk (1 :: path) f)
   | SThrow e => RThrowSt e
+  | SIfInst x T t e => RIfInst x T (resolve stk (0 :: path) t) (resolve stk (1 :: path) e)
   end
 with resolve_elifs (stk : list lid) (path : lid) (i : nat) (l : elifs) {struct l} : relifs :=
   match l with
@@ -92,6 +94,7 @@ Fixpoint scoped (d : nat) (s : stmt) {struct s} : bool :=
   match s with
   | SSkip | SExpr _ | SEcho _ | SPush _ _ | SSetIdx _ _ _ | SReturn _ | SStatic _ _ | SThrow _ => true
   | STry b cs f => scoped d b && scoped_catches d cs && scoped d f
+  | SIfInst _ _ t e => scoped d t && scoped d e
   | SSeq a b => scoped d a && scoped d b
   | SIf _ t ei e => scoped d t && scoped_elifs d ei && scoped d e
   | SWhile _ b | SDoWhile b _ | SFor _ _ _ b | SForeach _ _ _ b => scoped (S d) b
@@ -249,6 +252,37 @@ Fixpoint reval (e : expr) (fr : frame) (g : glob) {struct e} : res eout :=
           | Fuel => Fuel
           end
       | Res (EV _) fr g => Res (EX (VErr "not callable")) fr g
+      | r => r
+      end
+  | EProp e =>
+      match reval e fr g with
+      | Res (EV v) fr g =>
+          match obj_id v with
+          | Some i => Res (EV (hget i (gheap g))) fr g
+          | None => Res (EX (VErr "property of a non-object")) fr g
+          end
+      | r => r
+      end
+  | ESetProp e w =>                                   (* the value first, then the object (BinaryAssign) *)
+      match reval w fr g with
+      | Res (EV wv) fr g =>
+          match reval e fr g with
+          | Res (EV v) fr g =>
+              match obj_id v with
+              | Some i => Res (EV wv) fr (set_prop i wv g)
+              | None => Res (EX (VErr "property of a non-object")) fr g
+              end
+          | r => r
+          end
+      | r => r
+      end
+  | EHi e =>
+      match reval e fr g with
+      | Res (EV v) fr g =>
+          match obj_id v with
+          | Some i => Res (EV (VStr ("hi" ++ to_str (hget i (gheap g))))) fr g
+          | None => Res (EX (VErr "method call on a non-object")) fr g
+          end
       | r => r
       end
   | EMatch s m =>
@@ -583,6 +617,10 @@ Fixpoint rexec (n : nat) (fn : string) (s : rstmt) (fr : frame) (g : glob) {stru
                 end
             end
         end
+    | RIfInst x T t e =>
+        (* instanceof asks the hierarchy question the catch clauses ask *)
+        if (match rd fn x fr g with VObj _ _ _ => cm T (rd fn x fr g) | _ => false end)
+        then rexec n' fn t fr g else rexec n' fn e fr g
     | RThrowSt e =>
         match ev e fr g with
         | Res (EV v) fr g => Res (RThrow (thrown_of v)) fr g
